@@ -518,6 +518,24 @@ def replay(path):
         print("reduced:", json.dumps(vb)[:600])
         same = [(o.get("verdict")) for o in va] == [(o.get("verdict")) for o in vb]
         return 0 if same else 1
+    if obs.get("class") == "differential_frames":
+        from tools import framing_common as F
+        rec = beh["behaviour"]
+        vh = C.build_harness("vh")
+        write_harness2(beh["expansion_build"])
+        vh2 = build_harness2()
+        wd = C.workdir(PROP + "-replay")
+        rp = os.path.join(wd, "one.ndjson")
+        with open(rp, "w") as f:
+            f.write(json.dumps(rec) + "\n")
+        keys = F.make_keys(1, "C19")
+        va, _ = F.run_replay(vh, "frames", rp, keys, rotate=1)
+        vb, _ = F.run_replay(vh2, "frames", rp, keys, rotate=1)
+        print("full   :", json.dumps(va)[:600])
+        print("reduced:", json.dumps(vb)[:600])
+        same = XF.table(va) == XF.table(vb)
+        print("replayed history %s on both builds: %s" % (rec.get("id"), "same verdicts" if same else "DIFFERENT verdicts"))
+        return 0 if same else 1
     raise C.ToolError("unknown replay class %r" % obs.get("class"))
 
 
